@@ -17,7 +17,7 @@ EXPLANATION = (
     "tuple assignment and continues; loop locals rebound by re-assignment in one Python frame are captured late by closures "
     "(recorded finding); recur must be in tail position (analyzer check present)."
 )
-DECIDES = "truthiness template, fresh binder names, result-temp discipline of try/loop, simultaneous recur rebinding, closure capture of loop locals, tail-position check"
+DECIDES = "truthiness template, fresh binder names, result-temp discipline of try/loop, simultaneous recur rebinding, closure capture of loop locals, tail-position check, context-dependent work inside its context, hoisted global declarations, needed children analyzed as expressions, catch local outliving its handler, a value for every top-level form"
 DECLINED = "result values of compositions, exception classes, position independence (run-both-and-compare, another family)"
 TRUSTED = ["genname() returns a name not used before in the process", "Python closures capture variables, not values"]
 ASSUMPTIONS = []
